@@ -410,6 +410,37 @@ static int mode_enum(long depth, long worker, long workers, long split, long max
 	return 0;
 }
 
+// seed corpus for the libFuzzer stage: byte encodings of non-trivial random cases (pure function of the seed)
+static int mode_corpus(long seed, long cases, long maxsize, long len, const std::string &dir, long maxfiles)
+{
+	char env[256];
+	snprintf(env, sizeof env, "seed=%ld max_success=%ld max_size=%ld", seed, cases, maxsize);
+	setenv("RC_PARAMS", env, 1);
+	double k = std::max(1.0, (double)len / (double)maxsize);
+	auto gen = rc::gen::scale(k, rc::gen::container<std::vector<uint32_t>>(rc::gen::arbitrary<uint32_t>()));
+	long written = 0;
+	rc::check(H_NAME, [&]() {
+		std::vector<uint32_t> raw = *gen;
+		CaseOut o;
+		execute(raw.data(), raw.size(), false, false, o);
+		if (o.nontrivial && !o.failed && written < maxfiles) {
+			std::string path = dir + "/seed" + std::to_string(written++);
+			FILE *f = fopen(path.c_str(), "wb");
+			if (f) {
+				for (size_t i = 0; i < o.t.taken.size(); i++) {
+					uint64_t n = o.t.bf[i] ? o.t.bf[i] : (1ull << 32);
+					unsigned w = n <= 256 ? 1 : n <= 65536 ? 2 : 4;
+					for (unsigned b = 0; b < w; b++)
+						fputc((o.t.taken[i] >> (8 * b)) & 0xff, f);
+				}
+				fclose(f);
+			}
+		}
+	});
+	printf("%ld\n", written);
+	return 0;
+}
+
 static int mode_custom(long worker, long workers, long seed)
 {
 	if (!h_custom) {
@@ -579,6 +610,10 @@ int main(int argc, char **argv)
 			fprintf(stderr, "unknown option %s\n", a.c_str());
 			return 2;
 		}
+	}
+	if (mode == "corpus") {
+		g_counting = false;
+		return mode_corpus(seed, cases, maxsize, len, g_out, maxruns > 0 ? maxruns : 40);
 	}
 	if (mode == "replay") {
 		if (!file)
